@@ -480,6 +480,45 @@ func pendingDefers(f *ssa.Function, rd *ssa.RunDefers) []*ssa.Defer {
 	return out
 }
 
+// closureEntry: the lock-set a closure starts with, in the closure's own name space. A literal
+// names a captured variable as its parent does; a bound-method wrapper (x.m used as a value, the
+// method's body inlined into it on a variant) calls its receiver "recv" (or the method's receiver
+// name): paths rooted at the bound value are restated on the free variable.
+func closureEntry(mc *ssa.MakeClosure, s LockSet) LockSet {
+	fn, ok := mc.Fn.(*ssa.Function)
+	if !ok {
+		return s
+	}
+	out, cloned := s, false
+	for j, fv := range fn.FreeVars {
+		if j >= len(mc.Bindings) {
+			break
+		}
+		bp := LockPath(mc.Bindings[j])
+		if bp == "" || bp == fv.Name() || strings.HasPrefix(bp, "fresh@") || strings.HasPrefix(bp, "call@") || strings.HasPrefix(bp, "phi@") {
+			continue
+		}
+		for p, k := range s {
+			if p == bp || strings.HasPrefix(p, bp+".") || strings.HasPrefix(p, bp+"[") {
+				if !cloned {
+					out, cloned = s.clone(), true
+				}
+				out[fv.Name()+p[len(bp):]] = k
+			}
+		}
+	}
+	return out
+}
+
+// genericBody: a call to an instance of a generic function is a call of the generic body the
+// package lists (entry lock-sets and liveness are kept per source function).
+func genericBody(f *ssa.Function) *ssa.Function {
+	if f != nil && f.Origin() != nil {
+		return f.Origin()
+	}
+	return f
+}
+
 // argMap maps callee parameter names to caller argument paths.
 func argMap(callee *ssa.Function, c ssa.CallInstruction) map[string]string {
 	m := map[string]string{}
@@ -563,7 +602,7 @@ func (la *LockAnalysis) updateEntries() bool {
 				}
 				switch x := in.(type) {
 				case *ssa.Call:
-					if callee := x.Call.StaticCallee(); callee != nil && la.inPkg[callee] && callee.Parent() == nil {
+					if callee := genericBody(x.Call.StaticCallee()); callee != nil && la.inPkg[callee] && callee.Parent() == nil {
 						m := argMap(callee, x)
 						s := LockSet{}
 						for p, k := range held {
@@ -579,16 +618,16 @@ func (la *LockAnalysis) updateEntries() bool {
 					for i, a := range x.Call.Args {
 						if mc, ok := a.(*ssa.MakeClosure); ok {
 							s := held.clone()
-							if callee := x.Call.StaticCallee(); callee != nil && la.inPkg[callee] {
+							if callee := genericBody(x.Call.StaticCallee()); callee != nil && la.inPkg[callee] {
 								for k, v := range la.heldAtParamCalls(callee, i, argMap(callee, x)) {
 									s[k] = v
 								}
 							}
-							add(mc.Fn.(*ssa.Function), s)
+							add(mc.Fn.(*ssa.Function), closureEntry(mc, s))
 						}
 					}
 					if mc, ok := x.Call.Value.(*ssa.MakeClosure); ok {
-						add(mc.Fn.(*ssa.Function), held.clone())
+						add(mc.Fn.(*ssa.Function), closureEntry(mc, held.clone()))
 					}
 				case *ssa.Defer:
 					if mc, ok := x.Call.Value.(*ssa.MakeClosure); ok {
@@ -596,7 +635,7 @@ func (la *LockAnalysis) updateEntries() bool {
 						n := 0
 						for k, s := range la.deferAt {
 							if k.d == x {
-								add(mc.Fn.(*ssa.Function), s.clone())
+								add(mc.Fn.(*ssa.Function), closureEntry(mc, s.clone()))
 								n++
 							}
 						}
@@ -604,7 +643,7 @@ func (la *LockAnalysis) updateEntries() bool {
 							add(mc.Fn.(*ssa.Function), LockSet{})
 						}
 					}
-					if callee := x.Call.StaticCallee(); callee != nil && la.inPkg[callee] && callee.Parent() == nil {
+					if callee := genericBody(x.Call.StaticCallee()); callee != nil && la.inPkg[callee] && callee.Parent() == nil {
 						// a deferred helper (`defer pe.unlockAndGuard()`) starts, like a deferred
 						// closure, with the lock-set of the exits it runs at (in its own name space)
 						n := 0
@@ -629,7 +668,7 @@ func (la *LockAnalysis) updateEntries() bool {
 					if mc, ok := x.Call.Value.(*ssa.MakeClosure); ok {
 						get(mc.Fn.(*ssa.Function)).bad = true
 					}
-					if callee := x.Call.StaticCallee(); callee != nil && la.inPkg[callee] {
+					if callee := genericBody(x.Call.StaticCallee()); callee != nil && la.inPkg[callee] {
 						get(callee).bad = true
 					}
 					for _, a := range x.Call.Args {
